@@ -285,6 +285,7 @@ func FlagGrammar(s string) bool {
 //@ func (dec *Decoder) Literal(ptr *string) (result bool)
 //@   modifies ptr
 //@   ensures[C04] __called("CheckBufferedLiteralFunc") && __failed("CheckBufferedLiteralFunc") ==> !result && dec.err != nil
+//@   ensures[C04] __called("CheckBufferedLiteralFunc") && __failed("CheckBufferedLiteralFunc") && __resultBool("Decoder.LiteralReader", 1) ==> __called("Copy")
 
 
 var (
